@@ -657,60 +657,86 @@ def domain_c09(tier: str, rng: random.Random) -> Iterable[dict[str, Any]]:
 
 
 # ============================================================================= C15: histories over a persisted store
+def c15_config(tmpdir: str, uri: str, batch: int, tb: int) -> Any:
+    from tel2puml.otel_to_pv.config import load_config_from_dict
+    fm = {f: {"key_paths": [f"spans.[].{f}"], "value_type": "string"} for f in
+          ("job_name", "job_id", "event_type", "event_id", "start_timestamp", "end_timestamp", "application_name", "parent_event_id")}
+    fm["child_event_ids"] = {"key_paths": ["spans.[].child_event_ids"], "value_type": "array"}
+    return load_config_from_dict({
+        "ingest_data": {"data_source": "json", "data_holder": "sql"},
+        "data_holders": {"sql": {"db_uri": uri, "batch_size": batch, "time_buffer": tb}},
+        "data_sources": {"json": {"dirpath": os.path.join(tmpdir, "data"), "filepath": None, "json_per_line": False, "field_mapping": fm}},
+    })
+
+
+def view_of_uri(uri: str) -> dict[str, Any]:
+    import sqlalchemy as sa
+
+    class _H:
+        pass
+    h = _H()
+    h.engine = sa.create_engine(uri)
+    try:
+        return view(h)
+    finally:
+        h.engine.dispose()
+
+
 def run_c15(case: dict[str, Any]) -> dict[str, Any]:
-    """case: {"spans": [...], "batch": b, "history": [[ingest: bool, unique: bool], ...]}
-    Every run does what `otel_to_pv` does: (ingest) -> clean x3 -> (find_unique_graphs) -> stream + sequence.
+    """case: {"spans": [...], "batch": b, "history": [[ingest: bool, unique: bool], ...], "time_buffer": tb}
+    Every run is a call of the real entry point `otel_to_pv(config, ingest_data, find_unique_graphs)` on one file-backed
+    store (JSON data source -> SQL data holder -> cleaning -> optional unique graphs -> streaming + sequencing).
     Run k must terminate and give the same PV sequences / selected shapes as the first run with the same flags."""
+    from tel2puml.otel_to_pv.otel_to_pv import otel_to_pv
+    _, _, _, dm = _imports()
     stream = dec_spans(case["spans"])
     b = case["batch"]
+    tb = case.get("time_buffer", 0)
     tmpdir = tempfile.mkdtemp(prefix="vstore_", dir="/dev/shm" if os.path.isdir("/dev/shm") else None)
     uri = f"sqlite:///{tmpdir}/store.db"
     viol: list[dict[str, Any]] = []
-    first: dict[tuple[bool, bool], Any] = {}
+    first: dict[tuple[bool], Any] = {}
     try:
+        os.makedirs(os.path.join(tmpdir, "data"))
+        json.dump({"spans": [{"job_name": s.job_name, "job_id": s.job_id, "event_type": s.event_type, "event_id": s.event_id,
+                              "start_timestamp": s.start, "end_timestamp": s.end, "application_name": s.app, "parent_event_id": s.parent}
+                             for s in stream]}, open(os.path.join(tmpdir, "data", "spans.json"), "w"))
         # the store is created by a first ingesting run
         hist = [[True, case["history"][0][1]]] + [list(h) for h in case["history"][1:]]
         for k, (do_ingest, unique) in enumerate(hist):
-            dh = new_holder(uri, b, 0)
-            step = "ingest"
+            if "temp_root_nodes" in dm.Base.metadata.tables:   # a new process would not have it (in-process emulation of a new run)
+                dm.Base.metadata.remove(dm.Base.metadata.tables["temp_root_nodes"])
+            cfg = c15_config(tmpdir, uri, b, tb)
             try:
-                if do_ingest:
-                    ingest(dh, stream)
-                step = "remove_inconsistent_jobs"
-                dh.remove_inconsistent_jobs()
-                step = "remove_jobs_outside_of_time_window"
-                dh.remove_jobs_outside_of_time_window()
-                step = "update_job_names_by_root_span"
-                dh.update_job_names_by_root_span()
-                sel = None
-                if unique:
-                    step = "find_unique_graphs"
-                    sel = dh.find_unique_graphs()
-                step = "stream_data"
-                pv = pv_sequences(dh, sel)
-                v = view(dh)
+                pv: dict[str, dict[str, list[Any]]] = {}
+                for job_name, pv_streams in otel_to_pv(cfg, ingest_data=do_ingest, find_unique_graphs=unique):
+                    for pv_stream in pv_streams:
+                        evs = list(pv_stream)
+                        if evs:
+                            pv.setdefault(job_name, {})[evs[0]["jobId"]] = sorted(
+                                (e["eventId"], e["eventType"], e["timestamp"], tuple(sorted(e["previousEventIds"])), e["jobName"]) for e in evs)
+                v = view_of_uri(uri)
             except Exception as e:  # noqa: BLE001
-                fam = "degenerate-window" if "time buffer is too large" in str(e) else type(e).__name__
-                viol.append({"key": f"run/no_raise.{step}.{fam}", "what": f"run {k} (ingest={do_ingest}, unique={unique}) raised in {step}: "
+                fam = "degenerate-window" if "time buffer is too large" in str(e) and len({s.start for s in stream} | {s.end for s in stream}) <= 1 else type(e).__name__
+                viol.append({"key": f"run/no_raise.{fam}", "what": f"run {k} (ingest={do_ingest}, unique={unique}) raised "
                              f"{type(e).__name__}: {str(e)[:200]}", "case": case})
                 break
-            finally:
-                dispose(dh)
             bad = wf(v)
             if bad:
                 viol.append({"key": "run/ensures.WF", "what": f"after run {k}: " + "; ".join(bad), "case": case})
-            shapes_sel = None if sel is None else {n: sorted(str(shape(t, v["nodes"])) for t in ts) for n, ts in sel.items()}
-            obs = (pv if sel is None else None, shapes_sel, None if sel is None else {n: {t: s for t, s in d.items()} for n, d in pv.items()})
-            # with unique-graph filtering *which* representative is chosen may legitimately differ; the shapes may not
-            cmp = (obs[0], obs[1])
-            if (do_ingest or True, unique) and (unique,) not in first:
-                first[(unique,)] = cmp
-            elif first[(unique,)] != cmp:
+            if unique:
+                # which representative of a shape is chosen may legitimately differ; the shapes per workflow name may not
+                obs: Any = {n: sorted(str(shape(t, v["nodes"])) for t in d) for n, d in pv.items()}
+            else:
+                obs = pv
+            if (unique,) not in first:
+                first[(unique,)] = obs
+            elif first[(unique,)] != obs:
                 viol.append({"key": "run/ensures.same_answer_as_first_run", "what": f"run {k} (ingest={do_ingest}, unique={unique}) differs from the first "
-                             f"run with unique={unique}", "case": case})
+                             f"run with unique={unique}: {str(obs)[:200]} vs {str(first[(unique,)])[:200]}", "case": case})
     finally:
         shutil.rmtree(tmpdir, ignore_errors=True)
-    key = json.dumps(case["history"]) + "|" + json.dumps(case["spans"])[:200] + f"|{b}"
+    key = json.dumps(case["history"]) + "|" + json.dumps(case["spans"])[:200] + f"|{b}|{tb}"
     return {"violations": viol, "nontrivial": [key] if len(case["history"]) > 1 else [], "sample": case if len(case["history"]) > 2 else None}
 
 
@@ -723,6 +749,12 @@ def domain_c15(tier: str, rng: random.Random) -> Iterable[dict[str, Any]]:
     stores.append(chain("A", 3, "W1") + chain("B", 3, "W1") + [span("D", 1, "D.missing", 0, 9, name="W2")])
     flags = [[i, u] for i in (True, False) for u in (True, False)]
     maxlen = 3 if tier == "quick" else 4
+    # a store spread over six minutes with a one-minute buffer: the first (ingesting) run trims the traces lying in the
+    # buffer zones; later runs must neither trim further nor fail
+    spread = [s for k, tid in enumerate("ABCDEF") for s in [span(tid, 0, None, k, k, name="W1"), span(tid, 1, f"{tid}.s0", k, k, name="W1")]]
+    for n in range(2, maxlen + 1):
+        for hist in itertools.product(flags, repeat=n):
+            yield {"spans": enc_spans(spread), "batch": 1000, "history": [list(h) for h in hist], "time_buffer": 1}
     for st in stores:
         for n in range(1, maxlen + 1):
             for hist in itertools.product(flags, repeat=n):
